@@ -222,5 +222,8 @@ func HC02_World() {
 	}
 	x.check()
 	x.checkQueries(false)
+	st := x.w.Stats()
+	vAssert(st.Entities.Used == x.aliveCount(), "Stats().Entities.Used = creations - removals")
+	vAssert(st.Entities.Total == st.Entities.Used+st.Entities.Recycled, "Stats: total ids = used + recycled")
 	vReach("end")
 }
